@@ -4,8 +4,10 @@ package main
 import (
 	"encoding/json"
 	"fmt"
+	"go/ast"
 	"io"
 	"math/rand"
+	"sort"
 
 	"github.com/thanos-io/thanos/pkg/receive"
 	"github.com/thanos-io/thanos/pkg/store/labelpb"
@@ -30,7 +32,50 @@ type input struct {
 }
 
 func facts(repo string, w io.Writer) error {
-	fmt.Fprintln(w, "(* C20 uses no source facts of its own: the ketama model is shared with C18/C19 (Lib/Hashring_Ketama.v). *)")
+	s, err := common.ParseSrc(repo, "pkg/receive/hashring.go")
+	if err != nil {
+		return err
+	}
+	fd, err := s.FindFunc("NewMultiHashring")
+	if err != nil {
+		return err
+	}
+	// NewMultiHashring sorts m.nodes by address at the end. The ketama ring keeps the
+	// endpoint slice it was given and refers to it by index, so m.nodes must never
+	// alias a ring's slice: every assignment to m.nodes has to be
+	// `m.nodes = append(m.nodes, <something>...)` (a copy into m.nodes' own array).
+	assigns, copied := 0, true
+	ast.Inspect(fd.Body, func(n ast.Node) bool {
+		as, ok := n.(*ast.AssignStmt)
+		if !ok {
+			return true
+		}
+		for i, lhs := range as.Lhs {
+			if s.ExprString(lhs) != "m.nodes" {
+				continue
+			}
+			assigns++
+			ok := false
+			if i < len(as.Rhs) {
+				if call, isCall := as.Rhs[i].(*ast.CallExpr); isCall {
+					if id, isId := call.Fun.(*ast.Ident); isId && id.Name == "append" && len(call.Args) >= 1 &&
+						s.ExprString(call.Args[0]) == "m.nodes" {
+						ok = true
+					}
+				}
+			}
+			if !ok {
+				copied = false
+			}
+		}
+		return true
+	})
+	if assigns == 0 {
+		return fmt.Errorf("srcfacts: NewMultiHashring no longer assigns m.nodes")
+	}
+	fmt.Fprintln(w, "(* pkg/receive/hashring.go NewMultiHashring: is every assignment to m.nodes an append onto m.nodes itself")
+	fmt.Fprintln(w, "   (so that the final sort of m.nodes cannot reorder a ring's own endpoint slice)? *)")
+	fmt.Fprintf(w, "Definition nodes_copied : bool := %s.\n", common.Bool(copied))
 	return nil
 }
 
@@ -166,7 +211,22 @@ func run(raw json.RawMessage) (common.Case, error) {
 		qs = append(qs, common.Tuple(common.ZU(rk.Rank(hvs[i])), natList(a), natList(b)))
 		obs = append(obs, [2][]string{na, nb})
 	}
-	c.Coq = common.App("CAdd", common.List(hsTerms), common.Nat(in.Pos), hashes(in.Added), common.Nat(int(in.RF)), common.List(qs))
+	if in.Via == "multi" {
+		// order-preserving ids of the addresses (the constructor sorts nodes by address)
+		sorted := append([]string(nil), newNodes...)
+		sort.Strings(sorted)
+		id := map[string]int64{}
+		for i, a := range sorted {
+			id[a] = int64(i)
+		}
+		var addrTerms []int64
+		for _, a := range in.Nodes {
+			addrTerms = append(addrTerms, id[a])
+		}
+		c.Coq = common.App("CAddM", common.ZList(addrTerms), common.Z(id[in.Added]), common.List(hsTerms), common.Nat(in.Pos), hashes(in.Added), common.Nat(int(in.RF)), common.List(qs))
+	} else {
+		c.Coq = common.App("CAdd", common.List(hsTerms), common.Nat(in.Pos), hashes(in.Added), common.Nat(int(in.RF)), common.List(qs))
+	}
 	c.Obs = obs
 	c.Class = fmt.Sprintf("%s/n=%d", in.Via, len(in.Nodes))
 	// non-trivial: at least one series gained the new node as a replica
@@ -185,10 +245,15 @@ func gen(r *rand.Rand, tier string, n int) []any {
 		var in input
 		in.Via = "shim"
 		maxN := 12
-		if r.Intn(400) == 0 {
-			in.Via, maxN = "multi", 2
+		// the public constructor (real SectionsPerNode, so keep these few and small):
+		// a single ketama hashring config with the endpoint list in arbitrary order
+		if r.Intn(50) == 0 {
+			in.Via, maxN = "multi", 4
 		}
 		nn := int(common.Between(r, 1, int64(maxN)))
+		if in.Via == "multi" && nn < 2 {
+			nn = 2
+		}
 		used := map[string]bool{}
 		name := func() string {
 			for {
